@@ -36,6 +36,7 @@ type Program struct {
 	loadSeconds  float64
 	ghostCache   map[*ssa.Function]*ghostSet
 	libCache     map[string]*ssa.Function
+	funcValues   map[string][]*ssa.Function
 }
 
 var repoModulePrefixes = []string{"github.com/formancehq/ledger", "github.com/formancehq/stack/libs/go-libs"}
@@ -289,4 +290,20 @@ func (p *Program) libFunc(name string) *ssa.Function {
 		}
 	}
 	return p.libCache[name]
+}
+
+// fnPkg: the types package a function belongs to (also for closures, instantiations and synthetic wrappers).
+func fnPkg(f *ssa.Function) *types.Package {
+	for g := f; g != nil; g = g.Parent() {
+		if g.Pkg != nil {
+			return g.Pkg.Pkg
+		}
+		if o := g.Origin(); o != nil && o.Pkg != nil {
+			return o.Pkg.Pkg
+		}
+		if g.Object() != nil && g.Object().Pkg() != nil {
+			return g.Object().Pkg()
+		}
+	}
+	return nil
 }
